@@ -3,7 +3,8 @@
 (* definitions of Binning.tla.                                                                  *)
 (*   {"ev":"bins","tid":n,"src":..,"c":..,"b":..,"s":..,"bins":[[start,end],..]}                  *)
 (*   {"ev":"loc","tid":n,"src":..,"c","b","s","start","end","start_id","end_id"}                  *)
-(*   {"ev":"table","tid":n,"b","s","keep","reflen","reads":[{"c","w","sample"}],                  *)
+(*   {"ev":"table","tid":n,"b","s","keep","reads":[{"c","w","sample","reflen"}],  reflen = length of  *)
+(*                  the read's contig IN THE FILE THE READ CAME FROM (several BAMs per call)            *)
 (*                  "table":[{"sample","start","end","w"}]}     weights are integers (value * 2) *)
 EXTENDS TraceLib, Util
 
@@ -34,14 +35,15 @@ TableVerdict(e) ==
         expcells == { <<e.reads[i].sample, w[1], w[2]>> :
                         i \in DOMAIN e.reads, w \in UNION { Windows(e.reads[j].c, e.b, e.s) : j \in DOMAIN e.reads } }
         Exp(cell) == LET g(r) == IF r.sample = cell[1] /\ <<cell[2], cell[3]>> \in Windows(r.c, e.b, e.s)
-                                      /\ InBounds(<<cell[2], cell[3]>>, e.keep, e.reflen) THEN r.w ELSE 0
+                                      /\ InBounds(<<cell[2], cell[3]>>, e.keep, r.reflen) THEN r.w ELSE 0
                      IN SumSeqF(e.reads, g)
         Got(cell) == LET g(r) == IF <<r.sample, r.start, r["end"]>> = cell THEN r.w ELSE 0 IN SumSeqF(e.table, g)
         tot == LET g(r) == r.w IN SumSeqF(e.table, g)
-        exptot == LET g(r) == r.w * Cardinality({ w \in Windows(r.c, e.b, e.s) : InBounds(w, e.keep, e.reflen) })
+        exptot == LET g(r) == r.w * Cardinality({ w \in Windows(r.c, e.b, e.s) : InBounds(w, e.keep, r.reflen) })
                   IN SumSeqF(e.reads, g)
         sumw == LET g(r) == r.w IN SumSeqF(e.reads, g)
-    IN IF \E cell \in cells \cup expcells : Got(cell) # Exp(cell) THEN "Inv_C10_Table"
+    IN IF e.raised # "" THEN "Inv_C10_Raised"     \* the entry point must not raise on a legal BAM / option set
+       ELSE IF \E cell \in cells \cup expcells : Got(cell) # Exp(cell) THEN "Inv_C10_Table"
        ELSE IF tot # exptot THEN "Inv_C10_Total"
        ELSE IF e.s = e.b /\ tot > sumw THEN "Inv_C10_NoDouble"
        ELSE "ok"
